@@ -246,7 +246,9 @@ def run_values(case, part):
 SPECIAL_MEMBERS = [("granular_markings", ["x"]), ("granular_markings", [1]), ("granular_markings", "x"), ("granular_markings", [{}]), ("granular_markings", [{"selectors": "name"}]),
                    ("object_marking_refs", ["x"]), ("object_marking_refs", 5), ("extensions", ["x"]), ("extensions", {"x": 1}), ("spec_version", 2.1), ("created", []), ("modified", {}), ("id", 5),
                    ("type", None), ("revoked", "yes"), ("hashes", ["x"]), ("objects", "x"), ("selectors", 5)]
-NAMES = ["", " ", "1abc", "\u00e9t\u00e9", "a" * 300, "\n", "a.b", "a b", "__proto__", "x_", "custom_properties", "allow_custom", "self", "cls", "kwargs", "interoperability", "_inner", "type\n"]
+NAMES = ["", " ", "1abc", "\u00e9t\u00e9", "a" * 300, "\n", "a.b", "a b", "__proto__", "x_", "custom_properties", "allow_custom", "self", "cls", "kwargs", "interoperability", "_inner", "type\n",
+         # names that are replacement fields / conversion specifiers for the message of the very error that refuses them
+         "{x}", "{0.nope}", "{0}", "{1}", "%(x)s", "%s %s", "{"]
 
 
 def dict_nodes(x, path=()):
@@ -605,6 +607,14 @@ def run_refused_registrations(case, part):
             ("invalid-property-name-with-extension_name", lambda: stix2.v21.CustomObservable("x-verif-n7", [("1bad", P.StringProperty())], extension_name="extension-definition--3f7f0c5f-5d54-4292-94ea-ec1e1952c0d3")(body())),
             ("extension_name-without-separator", lambda: stix2.v21.CustomObservable("x-verif-n8", props(), extension_name="x-verif-n8-ext")(body())),
             ("object-extension_name-without-separator", lambda: stix2.v21.CustomObject("x-verif-n9", props(), extension_name="x-verif-n9-ext")(body())),
+            # a TAKEN type name that arrives with a FRESH extension_name: the refusal is about the name, the implicit extension must not stay behind
+            ("duplicate-observable-with-fresh-extension_name", lambda: stix2.v21.CustomObservable("x-verif-r1", props(), extension_name=E1[:-2] + "e1")(body())),
+            ("duplicate-object-with-fresh-extension_name", lambda: stix2.v21.CustomObject("x-verif-r2", props(), extension_name=E1[:-2] + "e2")(body())),
+            ("object-named-like-observable-with-fresh-extension_name", lambda: stix2.v21.CustomObject("x-verif-r1", props(), extension_name=E1[:-2] + "e3")(body())),
+            ("observable-named-like-object-with-fresh-extension_name", lambda: stix2.v21.CustomObservable("x-verif-r2", props(), extension_name=E1[:-2] + "e4")(body())),
+            ("builtin-object-name-with-fresh-extension_name", lambda: stix2.v21.CustomObject("malware", props(), extension_name=E1[:-2] + "e5")(body())),
+            ("builtin-observable-name-with-fresh-extension_name", lambda: stix2.v21.CustomObservable("file", props(), extension_name=E1[:-2] + "e6")(body())),
+            ("invalid-type-name-with-fresh-extension_name", lambda: stix2.v21.CustomObject("X_bad", props(), extension_name=E1[:-2] + "e7")(body())),
             ("properties-not-a-list", lambda: stix2.v21.CustomObject("x-verif-n10", 5)(body())),
             ("properties-none", lambda: stix2.v21.CustomObservable("x-verif-n11", None)(body())),
         ]
